@@ -164,7 +164,7 @@ def read_sfcf_multi(path, prefix, name_list, quarks_list=['.*'], corr_type_list=
         appended = False
     ls = []
     if "replica" in kwargs:
-        ls = kwargs.get("replica")
+        ls = list(kwargs.get("replica"))
     else:
         for (dirpath, dirnames, filenames) in os.walk(path):
             if not appended:
@@ -180,7 +180,8 @@ def read_sfcf_multi(path, prefix, name_list, quarks_list=['.*'], corr_type_list=
                 ls = list(set(ls) - set([exc]))
 
     if not appended:
-        ls = sort_names(ls)
+        if "replica" not in kwargs:
+            ls = sort_names(ls)
         replica = len(ls)
 
     else:
@@ -203,7 +204,7 @@ def read_sfcf_multi(path, prefix, name_list, quarks_list=['.*'], corr_type_list=
             new_names = _get_rep_names(ls, ens_name, rep_sep=(kwargs.get('rep_string', 'r')))
         else:
             new_names = _get_appended_rep_names(ls, prefix, name_list[0], ens_name, rep_sep=(kwargs.get('rep_string', 'r')))
-        new_names = sort_names(new_names)
+            new_names = sort_names(new_names)
 
     idl = []
 
